@@ -154,6 +154,10 @@ func solveOne(o *Obligation, idx int, cfg SolverCfg) *Result {
 		return r
 	}
 	smt := o.SMT()
+	if o.Negate && o.HasOpt() {
+		// vacuity guards must see every assumption, the optional ones included
+		smt = o.SMTOpt()
+	}
 	if len(smt) > 1<<20 {
 		r.Status = ToolError
 		r.Output = fmt.Sprintf("VC size %d exceeds cap", len(smt))
@@ -251,6 +255,69 @@ func solveOne(o *Obligation, idx int, cfg SolverCfg) *Result {
 		r.Status = ToolError
 		r.Output = strings.Join(errs, " | ")
 		return r
+	}
+	// second round: with the optional axioms (closed entry heap)
+	if o.HasOpt() {
+		of := filepath.Join(cfg.WorkDir, fmt.Sprintf("o%05d.opt.smt2", idx))
+		if err := os.WriteFile(of, []byte(o.SMTOpt()), 0o644); err == nil {
+			for _, at := range []attempt{{0, short}, {2, short}, {4, short}, {0, cfg.TimeoutSec}, {2, cfg.TimeoutSec}} {
+				if at.timeout == short && cfg.TimeoutSec <= short && at.si != 0 {
+					continue
+				}
+				ans, _, secs := runSolver(solvers[at.si], at.timeout, of)
+				r.Seconds += secs
+				if ans == "unsat" {
+					r.Status = Proved
+					r.Solver = solvers[at.si].name + " +closed-heap"
+					if !cfg.KeepFiles {
+						os.Remove(of)
+					}
+					return r
+				}
+				if ans == "sat" {
+					break
+				}
+			}
+			if !cfg.KeepFiles {
+				os.Remove(of)
+			}
+		}
+	}
+	// the merged exit state (arrays under if-then-else) defeats the solvers now and
+	// then: try the goal exit by exit (the exits' path conditions cover PC)
+	if len(o.Cases) > 1 {
+		all := true
+		for i := range o.Cases {
+			cf := filepath.Join(cfg.WorkDir, fmt.Sprintf("o%05d.case%d.smt2", idx, i))
+			if err := os.WriteFile(cf, []byte(o.SMTCase(i)), 0o644); err != nil {
+				all = false
+				break
+			}
+			ok := false
+			for _, at := range []attempt{{0, short}, {2, short}, {4, short}, {0, cfg.TimeoutSec}, {2, cfg.TimeoutSec}} {
+				ans, _, secs := runSolver(solvers[at.si], at.timeout, cf)
+				r.Seconds += secs
+				if ans == "unsat" {
+					ok = true
+					break
+				}
+				if ans == "sat" {
+					break
+				}
+			}
+			if !cfg.KeepFiles {
+				os.Remove(cf)
+			}
+			if !ok {
+				all = false
+				break
+			}
+		}
+		if all {
+			r.Status = Proved
+			r.Solver = "z3-new/cvc5 by exit cases"
+			return r
+		}
 	}
 	r.Status = Undecided
 	r.Output = lastOut
